@@ -19,6 +19,7 @@ pub mod c13;
 pub mod c14;
 pub mod c15;
 pub mod c16;
+pub mod c18;
 pub mod c19;
 pub mod c38;
 pub mod c40;
@@ -28,7 +29,7 @@ pub mod patches;
 pub mod syncp;
 
 pub fn all() -> Vec<PropDef> {
-    vec![c01::def(), c02::def(), c04::def(), c05::def(), c10::def(), c11::def(), c12::def(), c13::def(), c14::def(), c15::def(), c15::def_c17(), c16::def(), c16::def_c39(), c40::def(), c38::def(), c06::def(), syncp::def_c20(), syncp::def_c21(), syncp::def_c22(), syncp::def_c23(), c19::def(), c19::def_c30(), hist::def_c07(), hist::def_c29(), hist::def_c28(), patches::def_c09(), patches::def_c08(), misc::def_c31(), misc::def_c32(), misc::def_c37()]
+    vec![c01::def(), c02::def(), c04::def(), c05::def(), c10::def(), c11::def(), c12::def(), c13::def(), c14::def(), c15::def(), c15::def_c17(), c16::def(), c16::def_c39(), c40::def(), c38::def(), c06::def(), syncp::def_c20(), syncp::def_c21(), syncp::def_c22(), syncp::def_c23(), c19::def(), c19::def_c30(), hist::def_c07(), hist::def_c29(), hist::def_c28(), patches::def_c09(), patches::def_c08(), misc::def_c31(), misc::def_c32(), misc::def_c37(), c18::def()]
 }
 
 pub fn find(id: &str) -> Option<PropDef> {
